@@ -31,8 +31,17 @@ def cfg_term(spec):
         inner = f"GEvalLimit {g['limit']} {ones}"
     elif k == "FitnessEval":
         w = g["weights"]
-        ws = ones if w in ("equal", None) else ("[" + "; ".join(["1"] + ["0"] * (H - 1)) + "]" if w == "root" else "[" + "; ".join(str(int(x)) for x in w) + "]")
-        inner = f"GEvalLimit {g['limit']} {ws}"
+        # the machine's weights are computed by the model of FitnessEvalLimitReached's normalisation (Model/Tree.v weights_of; proved equal to the
+        # translated _transform_weights under __call__'s guard: Proofs/GenEquivStops.v effective_weights_ok)
+        wspec = {"equal": "WEqual", "equal_str": "WEqual", "root": "WRoot", "root_str": "WRoot", None: "WNone"}.get(w if w is None or isinstance(w, str) else "list",
+                                                                                                                 None) or "(WList [" + "; ".join(str(int(x)) for x in w) + "])"
+        ws = f"(weights_or_nil {H} {wspec})"
+        lim = g["limit"]
+        if wspec.startswith("(WList") and any(float(x) != int(x) for x in w):
+            # weights with halves: limit <= sum w_l * e_l  <=>  2 * limit <= sum (2 w_l) * e_l, and every product / partial sum is exact in binary64
+            assert all(float(2 * x) == int(2 * x) for x in w)
+            ws, lim = "(weights_or_nil %d (WList [%s]))" % (H, "; ".join(str(int(2 * x)) for x in w)), 2 * lim
+        inner = f"GEvalLimit {lim} {ws}"
     elif k == "Precision":
         inner = "GOracle"
     elif k == "RootStopped":
